@@ -648,7 +648,6 @@ static void prop(Tape &t, Ctx &c) {
 
     // ---- sample: the same through matrixSslNewClientSession + handshake
     if (do_hs && v0.parsed) {
-        sp.san.clear(); for (int i : perms[0]) sp.san.push_back(ents[i].e);
         HsResult h = handshake(issuer, first_der, E.text, nameType, mFlags, vflags, hs_ver, hs_seed);
         if (h.srv_load_rc < 0) c.count("hs-server-key-load-failed");
         else if (!h.ran) c.count(h.open_rc == PS_ARG_FAIL ? "hs-expected-name-refused-by-api" : "hs-open-failed");
@@ -663,9 +662,11 @@ static void prop(Tape &t, Ctx &c) {
             if (h.client_complete && !ref)
                 VF_FAIL(S("handshake-") + classify_wrong_accept(E.text, nameType, issuer, cn),"%s handshake COMPLETED with expectedName although no certificate name matches: %s",
                         mxh::ver_name(hs_ver), describe(E, nameType, mFlags, vflags, cn, ents, nullptr).c_str());
-            if (smoke && !h.client_complete)
-                VF_FAIL("handshake-identical-dnsname-rejected", "%s handshake refused (alert %d) although E is byte-identical to a dNSName: %s",
-                        mxh::ver_name(hs_ver), h.alert_at_server, describe(E, nameType, mFlags, vflags, cn, ents, nullptr).c_str());
+            // the direct call accepted this very certificate for E: a refusal *for the name* (certificate_unknown) contradicts it
+            if (smoke && v0.accept && !h.client_complete && h.alert_at_server == SSL_ALERT_CERTIFICATE_UNKNOWN)
+                VF_FAIL("handshake-identical-dnsname-rejected", "%s handshake refused with certificate_unknown although E is byte-identical to a dNSName and matrixValidateCertsExt accepts it: %s",
+                        mxh::ver_name(hs_ver), describe(E, nameType, mFlags, vflags, cn, ents, nullptr).c_str());
+            if (smoke && v0.accept && !h.client_complete) c.count("hs-smoke-refused-for-other-reason");
         }
     }
 }
